@@ -187,3 +187,140 @@ func zzH_C04_slice() {
 	}
 	zzv.Assert("partitions-cover-in-order", ok && k == n)
 }
+
+func init() {
+	zzHarnesses["zzH_C04_key"] = zzH_C04_key
+}
+
+var zzKeyAlphabet = []byte{'a', ' ', '/', '\\', 'b'}
+
+// H4.key: buildResult puts criterion k of the tiebreak list into points[3-k] (unused slots 0) with
+// the documented meaning: score (higher first), length (trimmed), chunk (smallest white-space
+// delimited span covering the matches), pathname (distance of the first match from the last path
+// separator), begin / end (position of the match relative to the trimmed line).
+func zzH_C04_key() {
+	n := zzv.Choose(1, zzv.CfgInt("nmax"))
+	line := make([]byte, n)
+	for i := range line {
+		line[i] = zzKeyAlphabet[zzv.Below(len(zzKeyAlphabet))]
+	}
+	crit := criterion(zzv.CfgInt("criterion"))
+	slot := zzv.Choose(0, 2)
+	cs := []criterion{byScore}
+	for len(cs) < slot {
+		cs = append(cs, byLength)
+	}
+	if slot == 0 {
+		cs = []criterion{crit}
+	} else {
+		cs = append(cs, crit)
+	}
+	sortCriteria = cs
+	item := &Item{text: util.ToChars(append([]byte{}, line...))}
+	no := zzv.Choose(0, 2)
+	offsets := make([]Offset, no)
+	for i := range offsets {
+		b := zzv.Below(n + 1)
+		e := zzv.Below(n + 1)
+		offsets[i] = Offset{int32(b), int32(e)}
+	}
+	keep := append([]Offset{}, offsets...)
+	score := zzv.Below(8) * 9000 // 0 .. 63000, plus out-of-range values below
+	if zzv.Bool() {
+		score = 70000
+	}
+	res := buildResult(item, offsets, score)
+	zzv.Reach("called")
+	zzv.Observe("key", int(res.points[3-slot]))
+	// unused slots stay zero
+	unused := true
+	for k := len(cs); k < 4; k++ {
+		if res.points[3-k] != 0 {
+			unused = false
+		}
+	}
+	zzv.Assert("unused-slots-zero", unused)
+	key := int(res.points[3-slot])
+	isSpace := func(c byte) bool { return c == ' ' }
+	// aggregate of the non-empty matched ranges
+	valid := false
+	minB, minE, maxE := 0, 0, 0
+	for _, o := range keep {
+		b, e := int(o[0]), int(o[1])
+		if b < e {
+			if !valid || b < minB {
+				minB = b
+			}
+			if !valid || e < minE {
+				minE = e
+			}
+			if !valid || e > maxE {
+				maxE = e
+			}
+			valid = true
+		}
+	}
+	lead, trail := 0, 0
+	for lead < n && isSpace(line[lead]) {
+		lead++
+	}
+	for trail < n-lead && isSpace(line[n-1-trail]) {
+		trail++
+	}
+	trimLen := n - lead - trail
+	switch crit {
+	case byScore:
+		want := 65535 - score
+		if score > 65535 {
+			want = 0
+		}
+		zzv.Assert("score-key", key == want)
+	case byLength:
+		zzv.Assert("length-key-is-trimmed-length", key == trimLen)
+	case byChunk:
+		if !valid {
+			zzv.Assert("no-match-range-ranks-last", key == 65535)
+		} else {
+			b, e := minB, maxE
+			for b > 0 && !isSpace(line[b-1]) {
+				b--
+			}
+			for e < n && !isSpace(line[e]) {
+				e++
+			}
+			zzv.Assert("chunk-key-is-covering-span", key == e-b)
+		}
+	case byPathname:
+		if !valid {
+			zzv.Assert("no-match-range-ranks-last", key == 65535)
+		} else {
+			last := -1
+			for i := 0; i < n; i++ {
+				if line[i] == '/' || line[i] == '\\' {
+					last = i
+				}
+			}
+			if last <= minB {
+				zzv.Assert("pathname-key-is-distance-from-last-separator", key == minB-last)
+			} else {
+				zzv.Assert("match-before-file-name-ranks-last", key == 65535)
+			}
+		}
+	case byBegin:
+		if !valid {
+			zzv.Assert("no-match-range-ranks-last", key == 65535)
+		} else if minB >= lead {
+			zzv.Assert("begin-key-is-end-of-first-match-from-trimmed-start", key == minE-lead)
+		}
+	case byEnd:
+		if !valid {
+			zzv.Assert("no-match-range-ranks-last", key == 65535)
+		} else if minB >= lead {
+			want := 65535 - 65535*(maxE-lead)/(trimLen+1)
+			if want < 0 {
+				want = 0 // a match reaching into the trailing blanks
+			}
+			zzv.Assert("end-key-formula", key == want)
+		}
+	}
+}
